@@ -741,17 +741,25 @@ func exec(in In) vh.Result {
 		hits := hitVector(order, len(in.Docs))
 		// signed inside-margin of p in one rectangle (positive inside), for the label only
 		margin := func(p Pt, minLon, maxLon float64) float64 {
-			return math.Min(math.Min(p.lon()-minLon, maxLon-p.lon()), math.Min(p.lat()-brLat, tlLat-p.lat()))
+			side := func(d float64, atBound bool) float64 {
+				if atBound && d >= 0 {
+					return math.Inf(1) // no valid point lies beyond a coordinate bound
+				}
+				return d
+			}
+			// latitude distances doubled: the latitude grid step is half the longitude step
+			return math.Min(math.Min(side(p.lon()-minLon, minLon == -180), side(maxLon-p.lon(), maxLon == 180)),
+				2*math.Min(side(p.lat()-brLat, brLat == -90), side(tlLat-p.lat(), tlLat == 90)))
 		}
 		rough := func(p Pt) int {
 			m := margin(p, tlLon, brLon)
 			if brLon < tlLon {
 				m = math.Max(margin(p, -180, brLon), margin(p, tlLon, 180))
 			}
-			if m > 1e-7 {
+			if m > 8.5e-8 {
 				return 0
 			}
-			if m < -1.2e-6 {
+			if m < -2.2e-6 {
 				return 1
 			}
 			return 2
